@@ -10,6 +10,7 @@ INVARIANT ExportSame
 INVARIANT MatrixToQubo
 INVARIANT SatTruth
 INVARIANT EncloseAt
+INVARIANT EncloseAt2
 INVARIANT ConstantExact
 INVARIANT TempRange
 INVARIANT SubValueSame
